@@ -529,6 +529,16 @@ class _Capture:
     return self.info
 
 
+class _StandIn:
+  sa_hook = True
+
+  def __init__(self, fn, kind):
+    self.fn, self.kind = fn, kind
+
+  def __call__(self, args, kwargs):
+    return self.fn(args, kwargs, kind=self.kind)
+
+
 def rule_performer_translation(ctx, R: str):
   """Decision table of TransformationPerformer._apply_single_transformation:
   the producer / consumer ids handed to the transformation are the image of the
@@ -582,3 +592,127 @@ def rule_performer_translation(ctx, R: str):
       ctx.check(R, ti.fields['tensor_id'] == 7 and ti.fields['subgraph'] is sg1 and ti.fields['quant_params'] is None and ti.fields['op_codes'] == ['codes'] and ti.fields['buffers'] == ['buffers'],
                 f.node, f, label, 'tensor id / subgraph / op codes / buffers / parameters handed to the transformation are not those of the instruction')
   ctx.sample(R, {'orig_map': orig, 'added_map': added, 'producer_lattice': [repr(x) for x in prod_lattice], 'consumer_lattice': cons_lattice, 'rows': n})
+
+
+# ------------------------------------------ performer bookkeeping simulation
+def rule_performer_simulation(ctx, R: str):
+  """transform_graph is enumerated on label models: operators are labels, the
+  registered transformations are stand-ins that insert a labelled op where
+  the real ones would (right after the producer / before the first consumer)
+  and report (position, 1, fresh tensor id). At every dispatch the ids handed
+  over must name, in the *current* operator list, the operators the plan
+  named in the *original* one - or, for a chained instruction, the op added
+  by the previous instruction of the same tensor. Covers _create_op_id_map,
+  _apply_transformations, _apply_single_transformation, _update_instructions,
+  _update_op_id_map and _first_original_op_at_or_after together, for two
+  subgraphs, whatever their implementation."""
+  from sa import absint  # pylint: disable=g-import-not-at-top
+  from sa.consteval import Obj  # pylint: disable=g-import-not-at-top
+  rs = ctx.rule(R, 'op-id bookkeeping: after any sequence of insertions every later transformation is handed ids that still name the operators the plan named (label-model simulation of transform_graph)', floor=1)
+  PERF = 'transformation_performer:TransformationPerformer'
+  tg = ctx.repo.func(f'{PERF}.transform_graph')
+  ctx.instance(R)
+  QT = {m.name: m for m in tables.enum(ctx, 'qtyping:QuantTransformation')}
+  ins_kinds = ('ADD_QUANTIZE', 'ADD_DEQUANTIZE')
+
+  def I(kind, tensor, producer, consumers, token):
+    return Obj('qtyping:TransformationInst', {'transformation': QT[kind], 'tensor_id': tensor, 'producer': producer, 'consumers': list(consumers), 'parameters': token})
+
+  # plans: {tensor name: (subgraph, [instruction specs])}; spec = (kind, tensor, producer, consumers)
+  plans = {
+      'single insert': [(0, [('ADD_QUANTIZE', 1, 0, [1])])],
+      'two tensors, later one behind the first insertion': [(0, [('ADD_QUANTIZE', 1, 0, [1])]), (0, [('ADD_DEQUANTIZE', 2, 1, [2, 3])])],
+      'two tensors, later one in front of the first insertion': [(0, [('ADD_DEQUANTIZE', 2, 1, [2, 3])]), (0, [('ADD_QUANTIZE', 1, 0, [1])])],
+      'chain on one tensor (DQ then Q for the same consumers)': [(0, [('ADD_DEQUANTIZE', 1, 0, [1, 2]), ('ADD_QUANTIZE', 1, 0, [1, 2])]), (0, [('ADD_QUANTIZE', 3, 2, [3])])],
+      'two consumer groups on one tensor': [(0, [('ADD_QUANTIZE', 1, 0, [1]), ('ADD_DEQUANTIZE', 1, 0, [2, 3])]), (0, [('ADD_QUANTIZE', 4, 3, [-1])])],
+      'graph input and graph output': [(0, [('ADD_QUANTIZE', 0, -1, [0])]), (0, [('ADD_DEQUANTIZE', 5, 3, [-1])]), (0, [('ADD_DEQUANTIZE', 2, 1, [2, -1])])],
+      'replacement before insertion in plan order': [(0, [('QUANTIZE_TENSOR', 7, -1, [1]), ('ADD_QUANTIZE', 1, 0, [1])]), (0, [('ADD_QUANTIZE', 2, 1, [2])])],
+      'two subgraphs': [(1, [('ADD_QUANTIZE', 1, 0, [1])]), (0, [('ADD_QUANTIZE', 1, 0, [1, 2])]), (1, [('ADD_DEQUANTIZE', 2, 1, [2])]), (0, [('ADD_DEQUANTIZE', 3, 2, [3])])],
+      'chain in the second subgraph after an insertion in the first': [(0, [('ADD_QUANTIZE', 1, 0, [1])]), (1, [('ADD_DEQUANTIZE', 1, 0, [1, 2]), ('ADD_QUANTIZE', 1, 0, [1, 2])]), (1, [('ADD_QUANTIZE', 2, 1, [2])])],
+      'same operator twice then a later tensor': [(0, [('ADD_QUANTIZE', 1, 0, [1]), ('ADD_QUANTIZE', 1, 0, [2])]), (0, [('ADD_QUANTIZE', 1, 0, [3])]), (0, [('ADD_DEQUANTIZE', 2, 2, [3])])],
+  }
+  rs.exhaustive = True
+  for pname, plan in plans.items():
+    ops = {0: ['a0', 'a1', 'a2', 'a3'], 1: ['b0', 'b1', 'b2']}
+    orig = {k: list(v) for k, v in ops.items()}
+    sgs = [Obj('x:SubGraphT', {'operators': ops[0], 'tag': 0}), Obj('x:SubGraphT', {'operators': ops[1], 'tag': 1})]
+    model = Obj('x:ModelT', {'subgraphs': sgs, 'operatorCodes': [], 'buffers': []})
+    expect = {}      # token -> (subgraph, kind, expected producer label, expected consumer labels, expected tensor id)
+    insts = {}
+    fresh = [100]
+    problems = []
+    seen_tokens = []
+    for ti, (sg, specs) in enumerate(plan):
+      objs = []
+      for ii, (kind, tensor, prod, cons) in enumerate(specs):
+        token = f't{ti}i{ii}'
+        objs.append(I(kind, tensor, prod, cons, token))
+        expect[token] = {'sg': sg, 'kind': kind, 'tensor': tensor, 'prod': prod, 'cons': list(cons), 'tname': ti, 'idx': ii}
+      insts[f'tensor{ti}'] = Obj('qtyping:TensorTransformationInsts', {'tensor_name': f'tensor{ti}', 'subgraph_id': sg, 'instructions': objs})
+    added_by = {}     # token -> (label, output tensor)
+
+    def stand_in(args, kwargs, kind=None):
+      ti_obj = args[0]
+      f = ti_obj.fields
+      token = f['quant_params']
+      e = expect.get(token)
+      if e is None:
+        problems.append(f'unknown instruction token {token!r}')
+        return Obj('qtyping:TransformationInfo', {'op_id': 0, 'num_ops_added': 0, 'output_tensor_id': 0})
+      seen_tokens.append(token)
+      sg = e['sg']
+      cur = ops[sg]
+      if f['subgraph'] is not sgs[sg]:
+        problems.append(f'{token}: handed subgraph {getattr(f["subgraph"], "fields", {}).get("tag")} instead of {sg}')
+      # which earlier instruction of the same tensor feeds this one?
+      feeder = None
+      for tok2, e2 in expect.items():
+        if e2['tname'] == e['tname'] and e2['idx'] < e['idx'] and tok2 in added_by and set(e2['cons']) & set(e['cons']):
+          feeder = tok2
+      want_tensor = added_by[feeder][1] if feeder else e['tensor']
+      want_prod = added_by[feeder][0] if feeder else (orig[sg][e['prod']] if e['prod'] is not None and e['prod'] >= 0 else None)
+      got_p = f['producer']
+      got_prod = None if (isinstance(got_p, int) and got_p < 0) else (cur[got_p] if isinstance(got_p, int) and got_p < len(cur) else f'<bad {got_p!r}>')
+      if got_prod != want_prod:
+        problems.append(f'{token}: producer position {got_p!r} is {got_prod} in the current graph {cur}; the plan means {want_prod}')
+      if f['tensor_id'] != want_tensor:
+        problems.append(f'{token}: tensor id {f["tensor_id"]!r}; expected {want_tensor}')
+      want_cons = sorted('OUT' if c < 0 else orig[sg][c] for c in e['cons'])
+      gc = f['consumers']
+      got_cons = sorted(('OUT' if (isinstance(c, int) and c < 0) else (cur[c] if isinstance(c, int) and c < len(cur) else f'<bad {c!r}>')) for c in gc) if isinstance(gc, list) else f'<{gc!r}>'
+      if got_cons != want_cons:
+        problems.append(f'{token}: consumer positions {gc!r} are {got_cons} in the current graph {cur}; the plan means {want_cons}')
+      if kind not in ins_kinds:
+        return Obj('qtyping:TransformationInfo', {'op_id': 0, 'num_ops_added': 0, 'output_tensor_id': f['tensor_id']})
+      pos_c = [c for c in gc if isinstance(c, int) and c >= 0] if isinstance(gc, list) else []
+      pos = min(pos_c) if pos_c else ((got_p + 1) if isinstance(got_p, int) and got_p >= 0 else len(cur))
+      if isinstance(got_p, int) and got_p >= 0:
+        pos = max(pos, got_p + 1)
+      pos = min(max(pos, 0), len(cur))
+      label = f'n{len(added_by)}'
+      cur.insert(pos, label)
+      fresh[0] += 1
+      added_by[token] = (label, fresh[0])
+      return Obj('qtyping:TransformationInfo', {'op_id': pos, 'num_ops_added': 1, 'output_tensor_id': fresh[0]})
+
+    it = absint.Interp(ctx.repo, ctx.ev)
+    selfo = it.construct(PERF, [], {}, None, 0)   # the class's own __init__: registry keys and pass membership are the repository's
+    reg = selfo.fields.get('_transformation_registration') if isinstance(selfo, Obj) else None
+    if not isinstance(reg, dict) or not reg:
+      raise index.AnalysisError(f'{PERF}.__init__: transformation registry not folded')
+    for key in list(reg):
+      reg[key] = _StandIn(stand_in, key.name)
+    # a second transform_graph call must not see the maps of the first
+    selfo.fields['_original_op_id_map'] = [[5, 6, 7, 8]]
+    selfo.fields['_added_op_id_map'] = [[2]]
+    outs = it.outcomes(tg, [selfo, insts, model], copy_args=False)
+    if len(outs) != 1 or outs[0].kind != 'return':
+      ctx.check(R, False, tg.node, tg, pname, f'not decided: {[o.short()[:100] for o in outs]}')
+      continue
+    missing = [t for t, e in expect.items() if e['kind'] != 'NO_QUANTIZE' and t not in seen_tokens]
+    if missing:
+      problems.append(f'instructions never applied: {missing}')
+    if len(seen_tokens) != len(set(seen_tokens)):
+      problems.append(f'instructions applied more than once: {seen_tokens}')
+    ctx.check(R, not problems, tg.node, tg, f'plan "{pname}"', '; '.join(problems[:3]))
+  ctx.sample(R, {'plans': list(plans)})
